@@ -82,6 +82,13 @@ def build_model(rng, idx: int, n_funcs: int):
         h, d = pick_pair(rng, rng.random() < 0.5)
         result = {"hint": h if rh else None, "doc": d if rd else None}
         f = {"name": f"fn{idx}x{j}", "method": rng.random() < 0.3, "params": params, "result": result}
+        if rng.random() < 0.2:
+            # a constructor: parameters documented on the class, or (class without docstring) in the __init__ docstring
+            f["method"] = False
+            f["ctor"] = rng.choice(["class", "init"])
+            f["result"] = {"hint": None, "doc": None}
+            funcs.append(f)
+            continue
         if rng.random() < 0.3:
             # tuple hint + one docstring entry per position, each position equal or different on its own
             k = rng.randint(2, 3)
@@ -106,6 +113,8 @@ def adapt(funcs, style: str, gated: set):
     for f in out:
         if style != "numpydoc":
             f.pop("multi", None)
+            if f.get("ctor") == "init":
+                f["ctor"] = "class"  # only the NumPy style reads parameter types from the __init__ docstring (recorded finding)
         if style == "rest" and "doc:type:param-hint-and-doc-differ@rest" in gated:
             for p in f["params"]:
                 if p["hint"] and p["doc"] and p["hint"] != p["doc"]:
@@ -131,7 +140,14 @@ def render_module(funcs, style: str) -> str:
             ret = " -> tuple[" + ", ".join(r["hint"] for r in f["multi"]) + "]"
             doc = render_doc(style, f"Summary of {f['name']}.", [(p["name"], p["doc"]) for p in f["params"]], None)
             doc += "\nReturns\n-------\n" + "".join((f"{r['name']} : {r['doc']}\n    Part.\n" if r["doc"] else f"{r['name']} : the next part\n    Part without usable type.\n") for r in f["multi"])
-        if f["method"]:
+        if f.get("ctor"):
+            b4 = "".join("    " + ln + "\n" if ln else "\n" for ln in doc.split("\n")[:-1])
+            b8 = "".join("        " + ln + "\n" if ln else "\n" for ln in doc.split("\n")[:-1])
+            if f["ctor"] == "class":
+                out.append(f"class Ctor_{f['name']}:\n    \"\"\"{b4[4:]}    \"\"\"\n\n    def __init__(self, {sig}) -> None:\n        ...\n\n\n")
+            else:
+                out.append(f"class Ctor_{f['name']}:\n    def __init__(self, {sig}) -> None:\n        \"\"\"{b8[8:]}        \"\"\"\n        ...\n\n\n")
+        elif f["method"]:
             body = "".join("        " + ln + "\n" if ln else "\n" for ln in doc.split("\n")[:-1])
             out.append(f"class Holder_{f['name']}:\n    def {f['name']}(self, {sig}){ret}:\n        \"\"\"{body[8:]}        \"\"\"\n        ...\n\n\n")
         else:
@@ -183,11 +199,15 @@ def make_judge(chk: Check):
         for _rel, _m, d in ss.all_decls():
             if d.kind == "fun":
                 byname[d.pyname] = d
+            elif d.kind == "class" and d.pyname.startswith("Ctor_"):
+                byname[d.pyname[len("Ctor_"):]] = d  # constructor parameters are the parameters of the class
         exp_param_warn: dict = {}
         exp_result_warn = set()
         for f in funcs:
             d = byname.get(f["name"])
             fid = f"pk/srcmod/{'Holder_' + f['name'] + '/' if f['method'] else ''}{f['name']}"
+            if f.get("ctor"):
+                fid = f"pk/srcmod/Ctor_{f['name']}/__init__"
             if d is None:
                 chk.discarded["function-not-in-stub"] += 1
                 continue
@@ -207,6 +227,9 @@ def make_judge(chk: Check):
                 if p["hint"] and p["doc"] and p["hint"] != p["doc"]:
                     exp_param_warn[fid] = exp_param_warn.get(fid, 0) + 1
                 chk.case_ok(f"{style}:{where}", ident=(case.cid, f["name"], p["name"]))
+            if f.get("ctor"):
+                chk.case_ok(f"{style}:ctor-documented-on-{f['ctor']}:{pref}")
+                continue
             r = f["result"]
             exp = expected_type(r, pref)
             combo = f"hint={'y' if r['hint'] else 'n'},doc={'y' if r['doc'] else 'n'},{'eq' if r['hint'] == r['doc'] else 'diff'}"
